@@ -138,6 +138,7 @@ inline std::string gen_scenario(const unsigned char *data, size_t size, const st
     else if (k == 15 && pf.reconfig) { if (c.chance(1, 2)) o += "reinit\n"; else { o += "setservers"; unsigned n = 1 + c.pick(3); for (unsigned j = 0; j < n; j++) o += " 10.0.0." + std::to_string(1 + c.pick(5)); o += "\n"; } }
     else if ((k == 16 || k == 17) && pf.inject && !ids.empty()) { static const char *ik[] = {"wrongid", "wrongname", "wrongtype", "wrongclass", "wrongcase", "wrongsrc", "wrongsock", "late", "nocookie", "badclientcookie"}; o += std::string("inject ") + ik[c.pick(10)] + " " + std::to_string(ids[c.pick((unsigned)ids.size())]) + "\n"; }
     else if (k == 18 && (pf.faults || prop == "C10")) o += "step stale " + std::to_string(c.pick(4)) + "\n";
+    else if (k == 19 && pf.cookies && c.chance(1, 2)) { static const char *cm[] = {"valid", "none", "changing", "valid", "short", "wrongclient"}; o += "cookiemode " + std::to_string(c.pick(nserv)) + " " + cm[c.pick(6)] + "\n"; }
     else if (k == 19 && pf.cookies) o += "srcaddr " + std::to_string(c.pick(nserv)) + " 192.168.7." + std::to_string(1 + c.pick(200)) + "\n";
     else o += "step\n";
   }
